@@ -157,6 +157,7 @@ fn worker(prop: &'static str, thorough: bool, seed: u64, first_run: u64, runs: u
         gen::add_aborts(&mut trace, &mut lane1, &mut gstats);
         gen::pick_env_mode(&mut trace, &mut lane1);
         gen::add_marathon(&mut trace, &mut lane1, &preset, &mut gstats);
+        gen::add_liars(&mut trace, &mut lane1, &mut gstats);
         let res = Exec::run(&trace);
         out.probes.add(&gstats);
         out.probes.add(&res.probes);
@@ -324,6 +325,8 @@ fn shape(t: &Trace) -> String {
             Ev::Snapshot => s.push_str("snapshot"),
             Ev::Restore => s.push_str("restore"),
             Ev::Hop { .. } => s.push_str("hop"),
+            Ev::Unwinding { .. } => s.push_str("unwinding"),
+            Ev::Liar { .. } => s.push_str("liar"),
             Ev::FeedAbort { .. } => s.push_str("abort"),
             Ev::Bulk { .. } => s.push_str("bulk"),
             Ev::Fork { .. } => s.push_str("fork"),
@@ -399,6 +402,7 @@ fn cmd_gen(a: &Args) -> i32 {
     gen::add_aborts(&mut trace, &mut lane1, &mut st);
     gen::pick_env_mode(&mut trace, &mut lane1);
     gen::add_marathon(&mut trace, &mut lane1, &preset, &mut st);
+    gen::add_liars(&mut trace, &mut lane1, &mut st);
     let res = Exec::run(&trace);
     println!("{}", J::obj().set("knobs", cfg.to_json()).set("trace", trace.to_json()).pretty());
     for v in res.violations.iter() {
@@ -557,6 +561,7 @@ fn cmd_run(a: &Args) -> i32 {
         let kn = known.clone();
         let unknown = move |x: &Violation| !kn.iter().any(|k| k.matches(prop, x));
         let sh = shrink::shrink(trace, v.rule, 20_000, &unknown);
+        let isolated = sh.is_some();
         let (min, execs, v2) = match sh {
             Some(s) => {
                 let v2 = Violation { idx: s.idx, rule: v.rule, detail: s.detail.clone() };
@@ -574,7 +579,12 @@ fn cmd_run(a: &Args) -> i32 {
         if let Err(e) = std::fs::write(&replay_path, rj.pretty()) {
             die(&format!("cannot write {}: {}", replay_path, e));
         }
-        failure_json = J::obj().set("run_index", J::u(*run)).set("rule", J::s(v.rule.id())).set("event_index", J::us(v2.idx)).set("detail", J::s(&v2.detail)).set("replay", J::s(&replay_path)).set("minimised_events", J::us(min.events.len())).set("original_events", J::us(trace.events.len()));
+        failure_json = J::obj().set("run_index", J::u(*run)).set("rule", J::s(v.rule.id())).set("event_index", J::us(v2.idx)).set("detail", J::s(&v2.detail)).set("replay", J::s(&replay_path)).set("minimised_events", J::us(min.events.len())).set("original_events", J::us(trace.events.len())).set("reproduced_when_re_executed_alone", J::Bool(isolated));
+        if !isolated {
+            // cannot happen unless scanner values share state across threads (statics in the crate):
+            // the 16 workers of the search are then 16 hosts that disturb each other
+            println!("note: this violation did NOT reproduce when its trace was re-executed alone in this process: the result depended on other runs executing concurrently, i.e. on state shared between scanner values across threads. The replay file holds the unminimised trace; replaying it (one thread) may not show the violation.");
+        }
         println!("violated rule {} in run {} (seed {}): {}", v.rule.id(), run, seed, v2.detail);
         println!("  {}", RULE_TEXT[v.rule as usize]);
         println!("  minimised from {} to {} events in {} re-executions: {}", trace.events.len(), min.events.len(), execs, min.to_json().compact());
@@ -705,7 +715,7 @@ fn evidence_json(
     }
     cov.put("simulated_time_ns_finite_part", J::Str(p.sim_time_ns.to_string()));
     cov.put("infinite_clock_jumps", J::u(p.infinite_jumps));
-    cov.put("events", J::obj().set("deliveries", J::u(p.deliveries)).set("polls", J::u(p.polls)).set("resets", J::u(p.resets)).set("clock_advances", J::u(p.advances)).set("forks", J::u(p.forks)).set("snapshots", J::u(p.snapshots)).set("restores", J::u(p.restores)).set("bare_resets_inside_reset_storms", J::u(p.reset_storm_resets)).set("soak_loops", J::u(p.soak_loops)).set("steps_inside_soak_loops", J::u(p.soak_steps)).set("scanner_debug_dumps", J::u(p.scanner_debug_dumps)).set("reported_message_debug_and_hash_checks", J::u(p.message_debug_hash_checks)).set("reported_message_hash_mismatch", J::u(p.message_hash_mismatch)).set("marathons", J::u(p.bulk_events)).set("marathon_rounds_on_the_fast_path", J::u(p.bulk_fast_rounds)).set("marathon_feeds_on_the_fast_path_per_instance", J::u(p.bulk_fast_feeds)).set("marathons_of_at_least_65536_rounds", J::u(p.bulk_rounds_max_2pow16)).set("marathons_of_at_least_2pow20_rounds", J::u(p.bulk_rounds_max_2pow20)).set("marathons_of_at_least_2pow24_rounds", J::u(p.bulk_rounds_max_2pow24)).set("aborted_feeds", J::u(p.aborted_feeds)).set("aborted_feed_calls_that_unwound", J::u(p.aborted_feed_calls_unwound)).set("aborted_feed_calls_that_completed_and_were_rolled_back", J::u(p.aborted_feed_calls_completed_and_rolled_back)).set("thread_hop_windows", J::u(p.thread_hop_windows)).set("calls_on_the_main_instance_executed_on_another_os_thread", J::u(p.calls_on_another_thread)).set("enc_cc14", J::u(p.enc_cc14)).set("enc_pn", J::u(p.enc_pn)).set("ingest_rejected", J::u(p.ingest_rejected)).set("ingest_mismatch", J::u(p.ingest_mismatch)).set("factory_rebuild_mismatch", J::u(p.factory_rebuild_mismatch)).set("accessor_mismatch", J::u(p.accessor_mismatch)).set("telemetry_mismatch", J::u(p.telemetry_mismatch)).set("garbled_text_parses_ok_plus_calls", J::u(p.garbled_parses)));
+    cov.put("events", J::obj().set("deliveries", J::u(p.deliveries)).set("polls", J::u(p.polls)).set("resets", J::u(p.resets)).set("clock_advances", J::u(p.advances)).set("forks", J::u(p.forks)).set("snapshots", J::u(p.snapshots)).set("restores", J::u(p.restores)).set("bare_resets_inside_reset_storms", J::u(p.reset_storm_resets)).set("soak_loops", J::u(p.soak_loops)).set("steps_inside_soak_loops", J::u(p.soak_steps)).set("scanner_debug_dumps", J::u(p.scanner_debug_dumps)).set("reported_message_debug_and_hash_checks", J::u(p.message_debug_hash_checks)).set("reported_message_hash_mismatch", J::u(p.message_hash_mismatch)).set("marathons", J::u(p.bulk_events)).set("marathon_rounds_on_the_fast_path", J::u(p.bulk_fast_rounds)).set("marathon_feeds_on_the_fast_path_per_instance", J::u(p.bulk_fast_feeds)).set("marathons_of_at_least_65536_rounds", J::u(p.bulk_rounds_max_2pow16)).set("marathons_of_at_least_2pow20_rounds", J::u(p.bulk_rounds_max_2pow20)).set("marathons_of_at_least_2pow24_rounds", J::u(p.bulk_rounds_max_2pow24)).set("aborted_feeds", J::u(p.aborted_feeds)).set("aborted_feed_calls_that_unwound", J::u(p.aborted_feed_calls_unwound)).set("aborted_feed_calls_that_completed_and_were_rolled_back", J::u(p.aborted_feed_calls_completed_and_rolled_back)).set("unwinding_windows", J::u(p.unwinding_windows)).set("calls_on_the_main_instance_made_from_a_destructor_during_unwinding", J::u(p.calls_from_an_unwinding_destructor)).set("self_contradicting_messages_fed", J::u(p.liar_feeds)).set("events_not_judged_between_such_a_message_and_the_next_reset_or_restore", J::u(p.events_not_judged_after_a_liar)).set("resets_judged_after_such_a_message", J::u(p.resets_judged_after_a_liar)).set("thread_hop_windows", J::u(p.thread_hop_windows)).set("calls_on_the_main_instance_executed_on_another_os_thread", J::u(p.calls_on_another_thread)).set("enc_cc14", J::u(p.enc_cc14)).set("enc_pn", J::u(p.enc_pn)).set("ingest_rejected", J::u(p.ingest_rejected)).set("ingest_mismatch", J::u(p.ingest_mismatch)).set("factory_rebuild_mismatch", J::u(p.factory_rebuild_mismatch)).set("accessor_mismatch", J::u(p.accessor_mismatch)).set("telemetry_mismatch", J::u(p.telemetry_mismatch)).set("garbled_text_parses_ok_plus_calls", J::u(p.garbled_parses)));
     cov.put("reports", J::obj().set("cc14", J::u(p.reports_cc14)).set("pn", J::u(p.reports_pn)).set("polling_feed", J::u(p.reports_polling_feed)).set("polling_poll", J::u(p.reports_polling_poll)));
     let mut ff = J::obj();
     let mut fl = J::obj();
